@@ -138,6 +138,8 @@ def run(ctx: Ctx) -> None:
             got = S.tables_canon(res["items"], sort_rows=linked)
             case = {"spec": spec, "history": list(history)}
             fclass = "threading-overlapping-steps-on-shared-cfw" if (mode == "thread" and S.overlap_on_shared_fw(exp, res["events"])) else None
+            if mode == "mp" and S.mp_unuploaded_tfs_source(exp):
+                fclass = "multiprocessing-transform-source-not-uploaded"
             ctx.case("stream", case, nres >= 2 and (behaviour != "drain" or rep > 0), mode=mode, behaviour=behaviour, nres=nres)
             if res["error"] and behaviour == "drain":
                 ctx.violation("stream", case, f"draining the stream raised although the batch run succeeds: {res['error']}", res["error"], "ok", finding_class=fclass)
